@@ -389,9 +389,9 @@ pub fn good_string(a: &[u32]) -> bool {
 pub fn smt_char_as_string(x: u32) -> String {
     if x == '"' as u32 {
         "\"\"".to_string()
-    } else if x >= 32 && x < 127 {
+    } else if x >= 32 && x < 127 && x != '\\' as u32 {
         char::from_u32(x).unwrap().to_string()
-    } else if x < 32 || x == 127 {
+    } else if x <= 127 {
         format!("\\u{{{:02x}}}", x)
     } else if x < 0x10000 {
         format!("\\u{:04x}", x)
@@ -403,15 +403,16 @@ pub fn smt_char_as_string(x: u32) -> String {
 // Convert to an ASCII string in the SMT syntax
 // - use escape sequences for non-printable ASCII characters and non-ASCII characters
 // - convert "  to ""
+// - print the backslash as \u{5c} so that the output never spells an escape sequence by accident
 impl fmt::Display for SmtString {
     fn fmt(&self, f: &mut fmt::Formatter<'_>) -> fmt::Result {
         write!(f, "\"")?;
         for &x in self.s.iter() {
             if x == '"' as u32 {
                 write!(f, "\"\"")?;
-            } else if x >= 32 && x < 127 {
+            } else if x >= 32 && x < 127 && x != '\\' as u32 {
                 write!(f, "{}", char::from_u32(x).unwrap())?;
-            } else if x < 32 || x == 127 {
+            } else if x <= 127 {
                 write!(f, "\\u{{{:02x}}}", x)?;
             } else if x < 0x10000 {
                 write!(f, "\\u{:04x}", x)?;
@@ -426,9 +427,9 @@ impl fmt::Display for SmtString {
 ///
 /// Convert integer x (interpreted as a Unicode codepoint) to a string in the SMT syntax:
 ///
-/// 1) printable ASCII characters (other than double quote) are unchanged
+/// 1) printable ASCII characters (other than double quote and backslash) are unchanged
 /// 2) a double quote is converted to two double quotes
-/// 3) non-printable ASCII characters are converted to "\u{xx}" (two hexadecimal digits)
+/// 3) non-printable ASCII characters and the backslash are converted to "\u{xx}" (two hexadecimal digits)
 /// 4) other characters are printed as "\uxxxx" or "\u{xxxxx}"
 /// 5) if x is outside the valid SMT range (i.e., x > 0x2FFFF) then it's
 ///    converted to the non-SMT compliant string \u{xxxxxx} with as many hexadecimal
@@ -437,9 +438,9 @@ impl fmt::Display for SmtString {
 pub fn char_to_smt(x: u32) -> String {
     if x == '"' as u32 {
         "\"\"".to_string()
-    } else if x >= 32 && x < 127 {
+    } else if x >= 32 && x < 127 && x != '\\' as u32 {
         char::from_u32(x).unwrap().to_string()
-    } else if x < 32 || x == 127 {
+    } else if x <= 127 {
         format!("\\u{{{:02x}}}", x)
     } else if x < 0x10000 {
         format!("\\u{:04x}", x)
